@@ -80,6 +80,31 @@ fn strip_first(layers: &[NLayer], kinds: &[Kind]) -> Vec<NLayer> {
     v
 }
 
+/// a source that delivers its data in small pieces and is interrupted now and then - what sockets
+/// and pipes do; `read_exact` copes with both, a single `read` call does not
+struct ChunkedReader<'a> {
+    inner: Cursor<&'a [u8]>,
+    max_chunk: usize,
+    calls: usize,
+    interrupt_every: usize,
+}
+
+impl<'a> std::io::Read for ChunkedReader<'a> {
+    fn read(&mut self, buf: &mut [u8]) -> std::io::Result<usize> {
+        self.calls += 1;
+        if self.interrupt_every != 0 && self.calls % self.interrupt_every == 0 {
+            return Err(std::io::Error::new(std::io::ErrorKind::Interrupted, "interrupted"));
+        }
+        let n = buf.len().min(self.max_chunk);
+        self.inner.read(&mut buf[..n])
+    }
+}
+impl<'a> std::io::Seek for ChunkedReader<'a> {
+    fn seek(&mut self, pos: std::io::SeekFrom) -> std::io::Result<u64> {
+        self.inner.seek(pos)
+    }
+}
+
 impl C06 {
     /// compare two whole-packet results that must be equivalent; `shift` is added to all
     /// offsets of `b` before comparing
@@ -380,12 +405,24 @@ impl C06 {
         rep.evals += 1;
         rep.count(&format!("entry.{}::read", t.name));
         shell::progress_entry(300 + ti as u64);
+        // one case in three reads from a source that delivers small pieces and gets interrupted
+        let chunked = rng.chance(1, 3);
+        let (max_chunk, interrupt_every) = (rng.range(1, 4) as usize, if rng.bool() { rng.range(2, 5) as usize } else { 0 });
         let res = shell::guarded(|| {
             let s = (t.from_slice)(&bytes);
-            let mut cur = Cursor::new(&bytes[..]);
-            let r = (t.read)(&mut cur, &bytes);
-            (s, r, cur.position() as usize)
+            if chunked {
+                let mut cr = ChunkedReader { inner: Cursor::new(&bytes[..]), max_chunk, calls: 0, interrupt_every };
+                let r = (t.read)(&mut cr, &bytes);
+                (s, r, cr.inner.position() as usize)
+            } else {
+                let mut cur = Cursor::new(&bytes[..]);
+                let r = (t.read)(&mut cur, &bytes);
+                (s, r, cur.position() as usize)
+            }
         });
+        if chunked {
+            rep.count("read_vs_slice.chunked_source");
+        }
         let (s, r, pos) = match res {
             Ok(x) => x,
             Err(p) => {
